@@ -35,7 +35,8 @@ def _helpers(rep, tier):
     from pySDC.helpers.stats_helper import filter_stats, get_list_of_types, get_sorted, sort_stats
 
     fields = ['process', 'time', 'level', 'iter', 'type']
-    alpha = {'process': [0, 1], 'time': [0.0, 0.5], 'level': [0, 1], 'iter': [1, 2], 'type': ['a', 'b']}
+    # values whose numeric order differs from their lexicographic order (2 < 10 but '10' < '2')
+    alpha = {'process': [2, 10], 'time': [2.0, 10.0], 'level': [0, 1], 'iter': [2, 10], 'type': ['a', 'b']}
     keys = [Entry(process=p, process_sweeper=0, time=t, level=l, iter=i, sweep=1, type=ty, num_restarts=0) for p, t, l, i, ty in itertools.product(*[alpha[f] for f in fields])]
     nmax = 3 if tier == 'thorough' else 2
     # queries: every assignment of {unset, v0, v1} to at most two key fields (thorough: three)
